@@ -49,8 +49,15 @@ def gen_config(rng, hostpool):
             settings = rng.choice([' ', '\n', '\n  ', '\t']).join(pats)
         else:
             settings = pats
-    return {'explicit': explicit, 'defaults': defaults, 'exception_only': rng.random() < 0.1,
-            'storage': rng.choice(['session', 'session', 'cookie', 'cookie', 'legacy']), 'settings': settings}
+    cfg = {'explicit': explicit, 'defaults': defaults, 'exception_only': rng.random() < 0.1,
+           'storage': rng.choice(['session', 'session', 'cookie', 'cookie', 'legacy']), 'settings': settings}
+    if rng.random() < 0.85:
+        # the configuration program: statement order and include nesting (committed once)
+        order = ['session', 'policy', 'defaults', 'view']
+        rng.shuffle(order)
+        depth = {k: rng.choice([0, 0, 1, 1, 2, 3]) for k in order if rng.random() < 0.5}
+        cfg['program'] = {'order': order, 'depth': depth}
+    return cfg
 
 
 def gen_patterns(rng, hostpool):
@@ -315,6 +322,13 @@ def canonical_cases():
             _req('svc.internal', origin='https://evilexample.com', header_tok=tok)]})
         out.append({'config': cfg, 'caller': None, 'raises': False, 'reqs': [
             _req('a.example.com', origin='http://a.example.com', header_tok=tok)]})
+        # view stated (directly / inside includes) before set_default_csrf_options(require_csrf=True): still protected
+        for depth in ({}, {'view': 2}, {'defaults': 1, 'view': 1}):
+            out.append({'config': dict(cfg, explicit=None, defaults={'require_csrf': True},
+                                       program={'order': ['view', 'session', 'defaults', 'policy'], 'depth': depth}),
+                        'caller': None, 'raises': False,
+                        'reqs': [_req('a.example.com', origin='https://a.example.com'),
+                                 _req('a.example.com', origin='https://a.example.com', header_tok=tok)]})
     return out
 
 
